@@ -108,6 +108,18 @@ def run(res, tier, seed):
         crng = random.Random(rng.getrandbits(48))
         obs.append(impl_traverse(cfg, o, crng, res, oracle_c01))
         cmds.append((1, cfg, o))
+    # optree dataclasses and optree partial are custom nodes too: exact round trip on a sample of layouts
+    from . import c19
+    import itertools
+    fk = list(itertools.product((1, 0), (1, 0), (0, 1, 2), (0, 1)))
+    opt_sets = [{}, {'slots': True}, {'frozen': True}, {'kw_only': True}]
+    dc_cmds, dc_obs = [], []
+    for i in range(200 if tier == 'quick' else 3000):
+        layout = tuple(rng.choice(fk) for _ in range(rng.randrange(1, 4)))
+        c19.check_layout(res, layout, rng.choice(opt_sets), rng.choice(['decorator', 'make']), dc_cmds, dc_obs)
+    c19.custom_init_checks(res)
+    c19.partial_checks(res, rng)
+    res.count('dataclass_layouts', len(dc_cmds))
     mod = runner.run_model(cmds)
     for c, a, b in zip(cmds, obs, mod):
         res.compare(c, a, b, 'cmd_traverse')
